@@ -1027,6 +1027,26 @@ func calleeName(ci ssa.CallInstruction) string {
 			return x.Name()
 		case *ssa.Alloc:
 			return x.Comment
+		case *ssa.Global:
+			// a package-level function variable
+			return x.Name()
+		case *ssa.FieldAddr:
+			// a function-typed struct field, called as x.f(...)
+			if st, ok := x.X.Type().Underlying().(*types.Pointer); ok {
+				if s, ok := st.Elem().Underlying().(*types.Struct); ok && x.Field < s.NumFields() {
+					return s.Field(x.Field).Name()
+				}
+			}
+		}
+	}
+	// any other function value held in a local variable: the variable's name
+	if v, ok := c.Value.(ssa.Value); ok && v.Referrers() != nil {
+		for _, r := range *v.Referrers() {
+			if dr, ok := r.(*ssa.DebugRef); ok && !dr.IsAddr && dr.Object() != nil {
+				if tv, isVar := dr.Object().(*types.Var); isVar && !tv.IsField() {
+					return dr.Object().Name()
+				}
+			}
 		}
 	}
 	return ""
